@@ -126,7 +126,12 @@ fn absorb(out: &mut WorkerOut, prop: &str, idx: u64, rs: u64, p: &Program, r: &R
         }
     }
     for (s, e) in &r.faults_fired {
-        *out.fault_kinds.entry(format!("epoll_ctl_seam{}_errno{}", s, e)).or_insert(0) += 1;
+        let name = match s {
+            4 => "process_events_returns_error".to_string(),
+            5 => format!("poll_wait_error_errno{}", e),
+            _ => format!("epoll_ctl_seam{}_errno{}", s, e),
+        };
+        *out.fault_kinds.entry(name).or_insert(0) += 1;
     }
     out.sim_ns += r.stats.sim_ns;
     out.steps += r.stats.steps;
@@ -214,6 +219,9 @@ fn worker(args: &[String]) -> i32 {
             }
             for k in 0..r.sites[1].min(32) {
                 variants.push(crate::program::Fault { site: 4, nth: k, errno: 0 });
+            }
+            for k in 0..r.sites[2].min(12) {
+                variants.push(crate::program::Fault { site: 5, nth: k, errno: libc::EBADF });
             }
             let mut sets: Vec<Vec<crate::program::Fault>> = variants.iter().map(|f| vec![f.clone()]).collect();
             // thorough tier: pairs of faults for short histories
